@@ -227,6 +227,33 @@ class Defs:
                 continue
             for x in t["args"][1:]:
                 d[base].append((term_pt(fn, b.idx), "store", x))
+        # core::mem::swap(&mut a, &mut b) / replace(&mut a, v): a (and b) are redefined by the call
+        for b in fn.blocks:
+            t = b.term
+            if t["t"] != "call" or len(t["args"]) != 2:
+                continue
+            ck = callee_skey(t) or ""
+            if not re.search(r"^core::mem::(swap|replace)$", ck):
+                continue
+
+            def base_of(a, depth=0):
+                if a.get("k") not in ("copy", "move") or depth > 3:
+                    return None
+                for _pt, kind, st in d.get(a["pl"]["l"], ()):
+                    if kind == "assign" and st["rv"]["r"] == "ref" and not _field_elems(st["rv"]["pl"]):
+                        if "*" not in st["rv"]["pl"]["p"]:
+                            return st["rv"]["pl"]["l"]
+                        # reborrow `&mut (*_27)` of `_27 = &mut local`
+                        return base_of({"k": "copy", "pl": {"l": st["rv"]["pl"]["l"], "p": []}}, depth + 1)
+                return None
+            b0 = base_of(t["args"][0])
+            if ck.endswith("::swap"):
+                b1 = base_of(t["args"][1])
+                if b0 is not None and b1 is not None:
+                    d[b0].append((term_pt(fn, b.idx), "store", {"k": "copy", "pl": {"l": b1, "p": []}}))
+                    d[b1].append((term_pt(fn, b.idx), "store", {"k": "copy", "pl": {"l": b0, "p": []}}))
+            elif b0 is not None:
+                d[b0].append((term_pt(fn, b.idx), "store", t["args"][1]))
         self.d = d
 
     def of(self, local):
